@@ -23,7 +23,11 @@ func c14Collect(recv, name string) (conds, slices []string, ok bool) {
 	ast.Inspect(fd.Body, func(n ast.Node) bool {
 		switch x := n.(type) {
 		case *ast.IfStmt:
-			conds = append(conds, c14Norm(src(x.Cond)))
+			c := c14Norm(src(x.Cond))
+			if x.Init != nil { // `if found = a && b; found {`: the guard lives in the init statement
+				c = c14Norm(src(x.Init)) + "; " + c
+			}
+			conds = append(conds, c)
 		case *ast.SliceExpr:
 			slices = append(slices, c14Norm(src(x)))
 		case *ast.IndexExpr:
